@@ -37,6 +37,14 @@ def calculate_fee(
     return fee + reserve
 
 
+def signature_size(content: Dict[str, Any]) -> int:
+    """Get size of the signature of the account sending the operation (BLS signatures are longer).
+
+    :param content: operation content {..., "source": "tz...", ... }
+    """
+    return 96 if content.get('source', '').startswith('tz4') else 64
+
+
 def default_fee(
     content: Dict[str, Any],
     gas_limit: Optional[int] = None,
@@ -49,7 +57,7 @@ def default_fee(
     return calculate_fee(
         content=content,
         consumed_gas=gas_limit if gas_limit is not None else default_gas_limit(content),
-        extra_size=32 + 64 + 3 * 3,  # branch, signature, fee:gas_limit:storage_limit mutez values (+3 bytes)
+        extra_size=32 + signature_size(content) + 3 * 3,  # branch, signature, fee:gas_limit:storage_limit mutez values (+3 bytes)
         minimal_nanotez_per_gas_unit=minimal_nanotez_per_gas_unit,
     )
 
